@@ -13,6 +13,10 @@ A(ent, a) == [ent EXCEPT !.absent = a]
 Nm(ent, n) == [ent EXCEPT !.norm = n]
 Stores == [
   xyz |-> << X("atnums"), R("atcoords", "abs", 10, "angstrom"), A(X("title"), "defaulted") >>,
+  \* XYZ with the user-defined atom columns of the module documentation (two keyed columns of one dictionary attribute)
+  xyz_columns |-> << X("atnums"), R("atcoords", "abs", 10, "angstrom"), A(X("title"), "defaulted"),
+                     R("atcharges.mulliken", "abs", 5, "au"), R("atcharges.hirshfeld", "abs", 5, "au"), R("atgradient", "abs", 10, "au"),
+                     R("atmasses", "abs", 4, "au"), X("atffparams.attypes") >>,
   sdf |-> << X("atnums"), R("atcoords", "abs", 4, "angstrom"), A(X("title"), "defaulted"), A(X("bonds"), "defaulted") >>,
   mol2 |-> << X("atnums"), R("atcoords", "abs", 4, "angstrom"), A(X("title"), "defaulted"), X("bonds"),
               A(R("atcharges.mol2charges", "abs", 4, "au"), "defaulted"), A(X("atffparams.attypes"), "defaulted") >>,
